@@ -50,6 +50,9 @@ func cacheLookup(o *Oblig) (SolveResult, bool) {
 	defer cacheMu.Unlock()
 	e, ok := proofCache[scriptKey(o.Script)]
 	if !ok || e.Status != o.Expect {
+		if os.Getenv("GOVC_DEBUG_CACHE") != "" {
+			fmt.Fprintf(os.Stderr, "cache miss: %s %s\n", o.Name, scriptKey(o.Script)[:16])
+		}
 		return SolveResult{}, false
 	}
 	cacheHits++
